@@ -73,6 +73,7 @@ type vC08Rec struct {
 	// calling goroutine (the switch's htlcForwarder) and NotifyForwardingEvent
 	// parks the calling goroutine (an outgoing link) while parkFwd > 0.  A
 	// parked goroutine hands its release channel to `parked`.
+	v       *vC08Net
 	onAdds  func()
 	holdID  uint64
 	parkFwd int
@@ -157,6 +158,13 @@ func (v *vC08Net) wire(node string, srv *mockServer, rg *vrng) messageIntercepto
 		}
 		if v.delays && rg.intn(4) == 0 {
 			time.Sleep(time.Duration(rg.intn(6000)) * time.Microsecond)
+		}
+		if node == "b" && v.spDequeue(ch, kind) {
+			// stop point "right before the handler runs": the link (or
+			// the node) was stopped, the message is lost with the
+			// connection
+			r.add("w", node, ch, kind, id, amt, hx, true, "stoppoint")
+			return true, nil
 		}
 		for !v.gate.TryRLock() {
 			select {
@@ -244,6 +252,12 @@ func (p *vC08Peer) SendMessage(sync bool, msgs ...lnwire.Message) error {
 	}
 	p.v.mu.Unlock()
 	if p.bob {
+		if p.v.bobDead.Load() {
+			// database stop point reached: the process is dead, nothing
+			// leaves it any more
+			return nil
+		}
+		p.v.sp(p.ch, "send")
 		for _, m := range msgs {
 			kind, ch, id, amt, hx := p.v.rec.classify(m)
 			if kind != "" {
@@ -269,6 +283,9 @@ func (h *vC08Notifier) NotifyForwardingEvent(key HtlcKey, info HtlcInfo,
 	ic, ii, oc, oi := h.key(key)
 	h.r.add("n", "fwd", int(et), ic, ii, oc, oi, uint64(info.IncomingAmt),
 		uint64(info.OutgoingAmt))
+	if et == HtlcEventTypeForward {
+		h.r.v.sp(oc, "nfwd")
+	}
 	h.r.mu.Lock()
 	park := h.r.parkFwd > 0
 	if park {
@@ -338,6 +355,11 @@ func (c *vC08Circuits) CommitCircuits(circuits ...*PaymentCircuit) (
 	}
 	if acts != nil {
 		c.r.add("c", "commit", conv(acts.Adds), conv(acts.Drops), conv(acts.Fails), err != nil)
+		if len(circuits) > 0 {
+			if ch := c.r.sc(circuits[0].Incoming.ChanID); ch == 1 || ch == 2 {
+				c.r.v.sp(ch, "commit")
+			}
+		}
 		c.r.mu.Lock()
 		hook := c.r.onAdds
 		if len(acts.Adds) > 0 {
@@ -415,6 +437,7 @@ func vC08WrapForward(r *vC08Rec, lp **channelLink, name int,
 	return func(q <-chan struct{}, replay bool, pkts ...*htlcPacket) error {
 		l := *lp
 		if len(pkts) > 0 {
+			r.v.spLink(l, name, "fwd")
 			var active map[uint64]bool
 			for _, p := range pkts {
 				kind := ""
@@ -498,6 +521,22 @@ type vC08Net struct {
 	dropped  int
 	delays   bool
 	failures int32
+
+	// stop-point enumeration (verif_threehop_sp_test.go)
+	bobDead  atomic.Bool
+	outFirst bool // restartBob brings up channel 2 before channel 1
+	spOn     bool
+	spCnt    map[string]int
+	spKey    string
+	spTarget int
+	spVar    string
+	spHits   []string
+	spFired  bool
+	spDone   chan struct{}
+	spErr    error
+	dbMu     sync.Mutex
+	dbN      int
+	dbTarget int
 }
 
 // mkLink is hopNetwork.createChannelLink with the Peer and ForwardPackets
@@ -516,6 +555,7 @@ func (v *vC08Net) mkLink(server, peer *mockServer, channel *lnwallet.LightningCh
 	ep := v.epoch[ch]
 	v.mu.Unlock()
 
+	var lp *channelLink
 	notifyUpdateChan := make(chan *contractcourt.ContractUpdate)
 	doneChan := make(chan struct{})
 	notifyContractUpdate := func(u *contractcourt.ContractUpdate) error {
@@ -526,6 +566,7 @@ func (v *vC08Net) mkLink(server, peer *mockServer, channel *lnwallet.LightningCh
 		// exact point of the model's ESig.
 		if bobName != 0 && u.HtlcKey == contractcourt.RemotePendingHtlcSet {
 			v.rec.add("g", bobName, len(u.Htlcs))
+			v.spLink(lp, bobName, "signed")
 		}
 		select {
 		case notifyUpdateChan <- u:
@@ -534,7 +575,6 @@ func (v *vC08Net) mkLink(server, peer *mockServer, channel *lnwallet.LightningCh
 		return nil
 	}
 	sw := server.htlcSwitch
-	var lp *channelLink
 	forwardPackets := func(linkQuit <-chan struct{}, _ bool,
 		packets ...*htlcPacket) error {
 
@@ -560,6 +600,9 @@ func (v *vC08Net) mkLink(server, peer *mockServer, channel *lnwallet.LightningCh
 					hs = append(hs, hex.EncodeToString(q.RHash))
 				}
 				v.rec.add("d", server.name, ch, hex.EncodeToString(id), hs, reforward)
+				if bobName != 0 && len(reqs) > 0 {
+					v.spLink(lp, bobName, "decode")
+				}
 				return decoder.DecodeHopIterators(id, reqs, reforward)
 			},
 			ExtractErrorEncrypter: func(*btcec.PublicKey) (
@@ -637,11 +680,12 @@ func (v *vC08Net) intersect(node string, s *mockServer) {
 }
 
 // vC08NewNet is newThreeHopNetwork built with mkLink.
-func vC08NewNet(t *testing.T, rec *vC08Rec, rg *vrng, ch *clusterChannels,
+func vC08NewNet(v *vC08Net, t *testing.T, rec *vC08Rec, rg *vrng, ch *clusterChannels,
 	restore func(one, two bool) (*clusterChannels, error), opt serverOption) *vC08Net {
 
-	v := &vC08Net{t: t, rec: rec, rg: rg, restore: restore, opt: opt,
-		tags: map[lnwire.Message]uint64{}}
+	v.t, v.rec, v.rg, v.restore, v.opt = t, rec, rg, restore, opt
+	v.tags = map[lnwire.Message]uint64{}
+	rec.v = v
 	v.n = &threeHopNetwork{hopNetwork: *newHopNetwork()}
 	n := v.n
 	n.aliceServer = v.newServer("alice", testChannelStateDB(t, ch.aliceToBob).GetParentDB())
@@ -749,6 +793,7 @@ func (v *vC08Net) restartBob() error {
 	n := v.n
 	old := n.bobServer
 	_ = old.Stop() // message loop, then the switch with both of its links
+	v.bobDead.Store(false)
 	v.rec.add("x", "restart")
 	n.aliceServer.htlcSwitch.RemoveLink(n.aliceChannelLink.ChanID())
 	n.carolServer.htlcSwitch.RemoveLink(n.carolChannelLink.ChanID())
@@ -769,6 +814,15 @@ func (v *vC08Net) restartBob() error {
 	chans, err := v.restore(true, true)
 	if err != nil {
 		return err
+	}
+	if v.outFirst {
+		// channel 2 first: responses replayed by its link for circuits
+		// whose incoming link (channel 1) is not registered yet are parked
+		// by the mail orchestrator as unclaimed
+		if err := v.links(chans, false, true); err != nil {
+			return err
+		}
+		return v.links(chans, true, false)
 	}
 	return v.links(chans, true, true)
 }
@@ -1217,7 +1271,12 @@ func vC08Setup(t *testing.T, rg *vrng) *vC08Net {
 	vC08Log.mu.Lock()
 	vC08Log.rec = rec
 	vC08Log.mu.Unlock()
-	v := vC08NewNet(t, rec, rg, channels, restore, circuitsOpt)
+	// Bob's two databases (one per channel end in this fixture; the switch
+	// uses channel 1's) get the stop-the-world backend before anything runs.
+	v := &vC08Net{}
+	vC08WrapDB(v, testChannelStateDB(t, channels.bobToAlice).GetParentDB())
+	vC08WrapDB(v, testChannelStateDB(t, channels.bobToCarol).GetParentDB())
+	vC08NewNet(v, t, rec, rg, channels, restore, circuitsOpt)
 	n := v.n
 	if err := n.start(); err != nil {
 		t.Fatalf("start: %v", err)
@@ -1827,6 +1886,13 @@ func (k *vC08Sink) Write(b []byte) (int, error) {
 		}
 		k.rec.add("f", line)
 	}
+	// a settle / fail was delivered to an incoming link that cannot apply it
+	// (the HTLC is gone or already answered)
+	for _, pat := range []string{"unable to settle incoming HTLC", "unable to cancel incoming HTLC"} {
+		if i := strings.Index(line, pat); k.rec != nil && i >= 0 {
+			k.rec.add("e", "spurious", strings.TrimSpace(line[i:]))
+		}
+	}
 	return len(b), nil
 }
 
@@ -1854,6 +1920,9 @@ func TestVerifThreeHop(t *testing.T) {
 	only := vEnvInt("VERIF_C08_ONLY", -1)
 	if only < 0 && vEnvInt("VERIF_C08_NOPROBE", 0) == 0 {
 		vC08Probe(t, out)
+	}
+	if only < 0 {
+		vC08StopPoints(t, out, root)
 	}
 	for i := 0; i < n && stuck < 2; i++ {
 		i := i
